@@ -6,9 +6,12 @@ import json, os, glob, sys
 here = os.path.dirname(os.path.dirname(os.path.abspath(__file__)))
 base = json.load(open(os.path.join(here, "manifest.d", "_base.json")))
 checks = []
+enabled = set(open(os.path.join(here, "manifest.d", "_enabled.txt")).read().split())
 for f in sorted(glob.glob(os.path.join(here, "manifest.d", "C*.json"))):
     c = json.load(open(f))
     pid = c["property_id"]
+    if pid not in enabled:   # fragments of checks still being built / reviewed are not claimed
+        continue
     c.setdefault("quick_cmd", "bin/vcheck %s --tier quick" % pid)
     c.setdefault("thorough_cmd", "bin/vcheck %s --tier thorough" % pid)
     c.setdefault("evidence_file", "/verif/evidence/%s.json" % pid)
